@@ -126,3 +126,265 @@ def parse_fixture(src):
         for child in ast.iter_child_nodes(parent):
             child._parent = parent
     return tree
+
+
+# ------------------------------------------------------------------------------------------------ path conditions
+JUMPS = (ast.Return, ast.Raise, ast.Continue, ast.Break)
+
+
+def ends_in_jump(body):
+    """Every way through the statement list leaves it by return/raise/continue/break."""
+    if not body:
+        return False
+    last = body[-1]
+    if isinstance(last, JUMPS):
+        return True
+    if isinstance(last, ast.If) and last.orelse:
+        return ends_in_jump(last.body) and ends_in_jump(last.orelse)
+    return False
+
+
+def literals(test, positive=True):
+    """Conjunction of literal texts equivalent to `test` (or to its negation): negations pushed into comparisons,
+    `and` split when positive, `or` split when negated.  The normal form in which conditions are compared."""
+    if isinstance(test, ast.UnaryOp) and isinstance(test.op, ast.Not):
+        return literals(test.operand, not positive)
+    if isinstance(test, ast.BoolOp):
+        if isinstance(test.op, ast.And) == positive:
+            out = []
+            for v in test.values:
+                out += literals(v, positive)
+            return out
+        def par(v, text):
+            return f"({text})" if isinstance(v, ast.BoolOp) else text
+        if positive:      # a disjunction: one literal, operands in text order
+            return [" or ".join(sorted(par(v, " and ".join(literals(v, True))) if len(literals(v, True)) > 1 else literals(v, True)[0] for v in test.values))]
+        return ["not (" + " and ".join(sorted(par(v, norm(v)) for v in test.values)) + ")"]
+    if isinstance(test, ast.Compare) and len(test.ops) == 1:
+        if positive:
+            return [norm(test)]
+        if type(test.ops[0]) in NEG:
+            return [norm(ast.Compare(left=test.left, ops=[NEG[type(test.ops[0])]()], comparators=test.comparators))]
+    if isinstance(test, ast.Constant) and isinstance(test.value, bool):
+        return [] if test.value == positive else ["False"]
+    t = norm(test)
+    if positive:
+        return [t]
+    return [f"not {t}" if isinstance(test, (ast.Name, ast.Attribute, ast.Call, ast.Subscript)) else f"not ({t})"]
+
+
+def fallthrough_conds(block, upto=None):
+    """Conditions known to hold after falling through the statements of `block` (up to statement `upto`): the negated
+    tests of guard clauses (`if c: <jump>`), elif chains included."""
+    out = []
+    for s in block:
+        if s is upto:
+            break
+        if isinstance(s, ast.If):
+            bj, oj = ends_in_jump(s.body), ends_in_jump(s.orelse)
+            if bj and not oj:
+                out += literals(s.test, False) + fallthrough_conds(s.orelse)
+            elif oj and not bj:
+                out += literals(s.test, True) + fallthrough_conds(s.body)
+    return out
+
+
+def conds(node, root=None):
+    """Conditions (literal texts, outermost first) known to hold whenever `node` is evaluated inside `root` (default:
+    the enclosing function): enclosing if/while/conditional-expression/short-circuit tests with their polarity,
+    comprehension filters, and the negated tests of earlier guard clauses (`if c: <return/raise/continue/break>`) in
+    every enclosing block.  The same conditions come out whether the code is nested or written with guard clauses."""
+    out = []
+    child, cur = node, getattr(node, "_parent", None)
+    while cur is not None and child is not root:
+        here = []
+        if isinstance(cur, (ast.If, ast.While)):
+            if any(child is b for b in cur.body):
+                here = literals(cur.test, True)
+            elif any(child is b for b in cur.orelse) and isinstance(cur, ast.If):
+                here = literals(cur.test, False)
+        elif isinstance(cur, ast.IfExp):
+            if child is cur.body:
+                here = literals(cur.test, True)
+            elif child is cur.orelse:
+                here = literals(cur.test, False)
+        elif isinstance(cur, ast.BoolOp):
+            k = next((i for i, v in enumerate(cur.values) if v is child), 0)
+            for v in cur.values[:k]:
+                here += literals(v, isinstance(cur.op, ast.And))
+        elif isinstance(cur, (ast.ListComp, ast.SetComp, ast.GeneratorExp, ast.DictComp)):
+            if not any(child is g for g in cur.generators):
+                for g in cur.generators:
+                    for c in g.ifs:
+                        here += literals(c, True)
+        # earlier guard clauses in the block that holds `child`
+        for fld in ("body", "orelse", "finalbody"):
+            block = getattr(cur, fld, None)
+            if isinstance(block, list) and any(child is b for b in block):
+                here = here + fallthrough_conds(block, child)
+        out = here + out
+        if isinstance(cur, (ast.FunctionDef, ast.AsyncFunctionDef, ast.Lambda)) and root is None:
+            break
+        child, cur = cur, getattr(cur, "_parent", None)
+    return out
+
+
+def returns_with_conds(fn):
+    """[(conditions, value node or None, Return node)] of a function: the same whatever mix of else-branches and guard clauses is used."""
+    out = []
+
+    def split(cs, v, r):
+        if isinstance(v, ast.IfExp):
+            split(cs + literals(v.test, True), v.body, r)
+            split(cs + literals(v.test, False), v.orelse, r)
+        else:
+            out.append((cs, v, r))
+    for r in returns_of(fn):
+        split(conds(r, fn), r.value, r)
+    return out
+
+
+def single_defs(fn):
+    """{name: value node} for locals of fn bound exactly once, by a plain `name = value` (parameters, loop targets etc. excluded)."""
+    count, val = {}, {}
+    for n in ast.walk(fn):
+        if isinstance(n, ast.Name) and isinstance(n.ctx, (ast.Store, ast.Del)):
+            count[n.id] = count.get(n.id, 0) + 1
+        elif isinstance(n, ast.arg):
+            count[n.arg] = count.get(n.arg, 0) + 2
+        elif isinstance(n, (ast.Global, ast.Nonlocal)):
+            for x in n.names:
+                count[x] = count.get(x, 0) + 2
+        if isinstance(n, ast.Assign) and len(n.targets) == 1 and isinstance(n.targets[0], ast.Name):
+            val[n.targets[0].id] = n.value
+    def container(v):     # an accumulator being filled is not a name for a value
+        return isinstance(v, (ast.List, ast.Dict, ast.Set)) or (isinstance(v, ast.Call) and isinstance(v.func, ast.Name) and v.func.id in ("list", "dict", "set", "defaultdict"))
+    return {k: v for k, v in val.items() if count.get(k) == 1 and not container(v)}
+
+
+def expand(expr, fn, depth=3):
+    """Text of expr with every once-assigned local of fn replaced by its definition: the same text whether or not the
+    code names intermediate values."""
+    defs = single_defs(fn)
+
+    class Sub(ast.NodeTransformer):
+        def __init__(self, d):
+            self.d = d
+
+        def visit_Name(self, n):
+            if isinstance(n.ctx, ast.Load) and n.id in defs and self.d > 0:
+                import copy
+                return Sub(self.d - 1).visit(copy.deepcopy(defs[n.id]))
+            return n
+    import copy
+    return norm(Sub(depth).visit(copy.deepcopy(expr)))
+
+
+class Facts:
+    """Statements and calls of a function as texts that do not depend on how the code names intermediate values or
+    nests its conditions: once-assigned locals are expanded (`expand`), and each text comes with the conditions under
+    which it runs (`conds`, expanded alike).  Rules ask `has(text, when=[...])` instead of matching source text."""
+
+    def __init__(self, fn):
+        self.fn = fn
+        self.items = []          # (text, conditions (tuple of texts), node)
+        cache = {}
+
+        def xc(n):
+            out = []
+            for c in conds(n, None if _inner_function(n, fn) else fn):
+                if c not in cache:
+                    try:
+                        cache[c] = " or ".join(sorted(expand(ast.parse(x, mode="eval").body, fn) for x in c.split(" or "))) if " or " in c else expand(ast.parse(c, mode="eval").body, fn)
+                    except SyntaxError:
+                        cache[c] = c
+                out.append(cache[c])
+            return tuple(out)
+        for n in ast.walk(fn):
+            if n is fn:
+                continue
+            if isinstance(n, (ast.For, ast.AsyncFor)):
+                self.items.append((f"for {norm(n.target)} in {expand(n.iter, fn)}", xc(n), n))
+            elif isinstance(n, (ast.With, ast.AsyncWith)):
+                self.items.append(("with " + ", ".join(expand(i.context_expr, fn) + (f" as {norm(i.optional_vars)}" if i.optional_vars is not None else "") for i in n.items), xc(n), n))
+            elif isinstance(n, ast.stmt) and not isinstance(n, (ast.If, ast.While, ast.Try, ast.FunctionDef, ast.AsyncFunctionDef, ast.ClassDef, ast.Match)):
+                self.items.append((expand(n, fn), xc(n), n))
+            elif isinstance(n, ast.Call):
+                self.items.append((expand(n, fn), xc(n), n))
+
+    def find(self, text, when=None, exactly=None):
+        out = []
+        for t, c, n in self.items:
+            if t != text:
+                continue
+            if when is not None and not set(when) <= set(c):
+                continue
+            if exactly is not None and sorted(set(c)) != sorted(set(exactly)):
+                continue
+            out.append(n)
+        return out
+
+    def has(self, text, when=None, exactly=None):
+        return bool(self.find(text, when, exactly))
+
+    def starting(self, prefix):
+        return [(t, c, n) for t, c, n in self.items if t.startswith(prefix)]
+
+    def conds_of(self, text):
+        return [list(c) for t, c, n in self.items if t == text]
+
+
+def _inner_function(n, fn):
+    cur = getattr(n, "_parent", None)
+    while cur is not None and cur is not fn:
+        if isinstance(cur, (ast.FunctionDef, ast.AsyncFunctionDef, ast.Lambda)):
+            return True
+        cur = getattr(cur, "_parent", None)
+    return False
+
+
+def decision_list(fn):
+    """A function made only of if/elif/else and return (conditional expressions included), read as an ordered list
+    [(test nodes with polarity [(node, positive)], value node)]: the first entry whose tests all hold gives the result.
+    Exact for side-effect-free tests, whatever mix of nesting, else-branches and guard clauses the code uses.
+    Returns (entries, impure statements)."""
+    entries, impure = [], []
+
+    def value(ctx, v):
+        if isinstance(v, ast.IfExp):
+            value(ctx + [(v.test, True)], v.body)
+            value(ctx + [(v.test, False)], v.orelse)
+        else:
+            entries.append((ctx, v))
+
+    def block(body, ctx):
+        """True when every way through the block returns."""
+        for st in body:
+            if isinstance(st, ast.Return):
+                value(ctx, st.value if st.value is not None else ast.Constant(None))
+                return True
+            if isinstance(st, ast.If):
+                a = block(st.body, ctx + [(st.test, True)])
+                b = block(st.orelse, ctx + [(st.test, False)]) if st.orelse else False
+                if a and b:
+                    return True
+                if not a and st.body and not all(isinstance(x, (ast.Return, ast.If, ast.Pass)) for x in st.body):
+                    pass
+                continue
+            if isinstance(st, ast.Expr) and isinstance(st.value, ast.Constant):
+                continue
+            if isinstance(st, ast.Pass):
+                continue
+            impure.append(st)
+        return False
+    if not block(fn.body, []):
+        entries.append(([], ast.Constant(None)))
+    return entries, impure
+
+
+def split_tests(tests):
+    """[(node, positive)] -> literal texts (conjunction), via literals()."""
+    out = []
+    for t, pos in tests:
+        out += literals(t, pos)
+    return out
